@@ -423,8 +423,15 @@ class Interp:
             if isinstance(base, tuple) and base[0] == 'class':
                 fn = h.module.method(base[1], e.attr)
                 if fn is None:
+                    cv = self.class_value(base[1], e.attr, cls)
+                    if cv is not None:
+                        return cv
                     raise AnalysisError('heap model: %s.%s not found' % (base[1], e.attr))
                 return Closure(fn.node, {}, None, fn.cls)
+            if isinstance(base, tuple) and base and base[0] == 'regex':
+                return ('regexmethod', base, e.attr)
+            if isinstance(base, tuple) and base and base[0] == 'record' and e.attr in base[2]:
+                return base[3][base[2].index(e.attr)]
             if isinstance(base, SStr):
                 return ('symmethod', base, e.attr)
             if isinstance(base, str) and e.attr in ('endswith', 'startswith', 'strip', 'lstrip', 'rstrip', 'lower', 'upper', 'join', 'split', 'partition',
@@ -544,6 +551,11 @@ class Interp:
             return h.new_list([self.ev(x, env, cls) for x in e.elts])
         if isinstance(e, ast.Dict) and not e.keys:
             return h.new_dict()
+        if isinstance(e, ast.Dict) and all(k is not None for k in e.keys):
+            d = h.new_dict()
+            for k, v in zip(e.keys, e.values):
+                h.dict_set(d, self.ev(k, env, cls), self.ev(v, env, cls))
+            return d
         if isinstance(e, ast.Set):
             items = [self.ev(x, env, cls) for x in e.elts]
             if not all(isinstance(x, (str, int, tuple)) for x in items):
@@ -638,6 +650,8 @@ class Interp:
             return args[0]
         if isinstance(fn, ast.Name) and fn.id == 'len' and len(args) == 1 and (h.is_list(args[0]) or isinstance(args[0], (list, tuple))):
             return len(h.items(args[0])) if h.is_list(args[0]) else len(args[0])
+        if isinstance(fn, ast.Name) and fn.id == 'map' and len(args) == 2 and 'map' not in env:
+            return [self.apply(args[0], [x]) for x in self.seq(args[1])]
         if isinstance(fn, ast.Name) and fn.id == 'enumerate' and len(args) == 1:
             return [(i, v) for i, v in enumerate(self.seq(args[0]))]
         if isinstance(fn, ast.Attribute) and fn.attr in ('append', 'remove', 'insert', 'index', 'pop', 'extend', 'clear', 'format'):
@@ -722,6 +736,8 @@ class Interp:
             return self.call(f, args, kwargs)
         if isinstance(f, tuple) and f and f[0] == 'hook':
             return h.hooks[f[1]](self, args, kwargs)
+        if isinstance(f, tuple) and f and f[0] in ('namedtuple', 'regexmethod'):
+            return self.apply(f, args, kwargs)
         if isinstance(f, tuple) and f and f[0] == 'weak':
             return f[1]
         if isinstance(f, tuple) and f and f[0] == 'symmethod':
@@ -746,6 +762,72 @@ class Interp:
                 return h.new_list(r)
             return r
         raise AnalysisError('heap model: call %s' % norm(e)[:60])
+
+    def class_value(self, cname, attr, cur_cls):
+        """class-level constants that are values of the model: compiled regexes, namedtuple types, plain constants"""
+        h = self.h
+        for nm in (attr, h.fld(attr, cur_cls or cname)):
+            raw = nm
+            if cur_cls and nm.startswith('_' + cur_cls.lstrip('_') + '__'):
+                raw = nm[len('_' + cur_cls.lstrip('_')):]
+            for cand in (nm, raw):
+                node, c = h.module.class_const_node(cname, cand)
+                if node is None:
+                    continue
+                if isinstance(node, ast.Call) and norm(node.func) == 're.compile':
+                    home = h.module._home(c) if hasattr(h.module, '_home') else h.module
+                    try:
+                        pat = home.fold(node.args[0], c)
+                        fl = home.fold(node.args[1], c) if len(node.args) > 1 else 0
+                    except Exception:      # pylint: disable=broad-except
+                        raise AnalysisError('heap model: regex %s.%s does not fold' % (c, cand))
+                    return ('regex', '%s.%s' % (c, cand), pat, fl)
+                if isinstance(node, ast.Call) and norm(node.func) in ('collections.namedtuple', 'namedtuple') and len(node.args) == 2:
+                    home = h.module._home(c) if hasattr(h.module, '_home') else h.module
+                    fields = home.fold(node.args[1], c)
+                    if isinstance(fields, str):
+                        fields = fields.replace(',', ' ').split()
+                    return ('namedtuple', home.fold(node.args[0], c), tuple(fields))
+                if isinstance(node, ast.Constant):
+                    return node.value
+        return None
+
+    def apply(self, f, args, kwargs=None):
+        """call a value of the model"""
+        h = self.h
+        kwargs = kwargs or {}
+        while isinstance(f, tuple) and f and f[0] == 'partial':
+            args = list(f[2]) + list(args)
+            kwargs = dict(f[3], **kwargs)
+            f = f[1]
+        if isinstance(f, Closure):
+            return self.call(f, list(args), kwargs)
+        if isinstance(f, tuple) and f and f[0] == 'hook':
+            return h.hooks[f[1]](self, list(args), kwargs)
+        if isinstance(f, tuple) and f and f[0] == 'namedtuple':
+            vals = list(args) + [kwargs[n] for n in f[2][len(args):]]
+            if len(vals) != len(f[2]):
+                raise Raised('TypeError', h.version, 0)
+            return ('record', f[1], f[2], tuple(vals))
+        if isinstance(f, tuple) and f and f[0] == 'regexmethod':
+            rxv, meth = f[1], f[2]
+            hk = h.hooks.get('regex:%s.%s' % (rxv[1].split('.')[-1], meth)) or h.hooks.get('regex:%s.%s' % (rxv[1].split('.')[-1].lstrip('_'), meth))
+            if hk is not None:
+                return hk(self, list(args), kwargs)
+            if meth == 'split' and args and isinstance(args[0], (str, SStr)):
+                try:
+                    return h.new_list(symstr.regex_split(rxv[2], rxv[3], args[0], args[1] if len(args) > 1 else kwargs.get('maxsplit', 0)))
+                except KeyError as k:
+                    raise Raised(k.args[0], h.version, 0)
+            raise symstr.Undecided('regex method %s.%s on %r' % (rxv[1], meth, args[:1]))
+        if isinstance(f, tuple) and f and f[0] == 'symmethod':
+            return self.sym_method(f[1], f[2], list(args), kwargs, None)
+        if isinstance(f, tuple) and f and f[0] == 'strmethod':
+            if any(isinstance(a, SStr) for a in args):
+                return self.sym_method(symstr.lift(f[1]), f[2], list(args), kwargs, None)
+            r = getattr(f[1], f[2])(*args, **kwargs)
+            return h.new_list(r) if isinstance(r, list) else r
+        raise AnalysisError('heap model: cannot call %r' % (f,))
 
     # -- symbolic strings -------------------------------------------------------------------------------
     def sym_compare(self, l, op, r, e):
